@@ -159,8 +159,8 @@ FLAGGING = ['Sm', 'Stau', 'Sb', 'St', 'hh', 'Ah', 'Hpm']
 NONFLAGGING = ['Sd', 'Su', 'Se', 'Ss', 'Sc']
 ARR = {'Sm': 'MSm', 'Stau': 'MStau', 'Sb': 'MSb', 'St': 'MSt', 'hh': 'Mhh', 'Ah': 'MAh', 'Hpm': 'MHpm', 'Sd': 'MSd', 'Su': 'MSu', 'Se': 'MSe', 'Ss': 'MSs', 'Sc': 'MSc'}
 
-def make_tachyon(nm):
-    @obligation('C04.tachyon.%s' % nm, fns=[(ME, CLS + '::calculate_M' + nm)])
+def make_tachyon(nm, pid='C04'):
+    @obligation('%s.tachyon.%s' % (pid, nm), fns=[(ME, CLS + '::calculate_M' + nm)])
     def ob(ctx, nm=nm):
         """for ANY symmetric 2x2 mass matrix (eigen-solver by A-LINALG: eigenvalues w ordered by |w|): a tachyon is flagged on exactly the
         paths on which some eigenvalue is negative, and the stored masses are sqrt(|w_i|) >= 0 in the solver's order"""
